@@ -288,8 +288,18 @@ def takeDump (n : Node) : Option Dump :=
   | [p, l] => some { enabled := some n.enabled, prev := p, last := l }
   | _ => none
 
+/-- `__loadDumpFile(clearJournal=True)` (a snapshot received from the leader) returns at once, leaving log and state
+alone, when the snapshot's last entry is already applied or already in the log with the same term (repair D4 of the
+replication core, `syncobj.py` "keep log and state"). -/
+def skipsInstall (n : Node) (d : Dump) (clearJournal : Bool) : Bool :=
+  clearJournal && (decide (d.last.idx ≤ n.lastApplied) ||
+    (match getEntries n.log d.last.idx 1 with
+     | e :: _ => e.term == d.last.term
+     | [] => false))
+
 /-- `__loadDumpFile(clearJournal)` (repaired: name table for the restored version). -/
 def loadDump (n : Node) (d : Dump) (clearJournal : Bool) : Node :=
+  if skipsInstall n d clearJournal then n else
   let enabled := d.enabled.getD n.enabled
   let keep := !clearJournal && n.log.length ≥ 2 && n.log[0]? == some d.prev && n.log[1]? == some d.last
   { n with enabled := enabled, tableVer := enabled, lastApplied := d.last.idx,
